@@ -355,9 +355,99 @@ BATTERY_PAYLOADS = ["57", "0", "100", "100.4", "100.5", "100.50000000000000001",
                     " 42 ", "4_2", "٤٢", "1" + "0" * 30, "9" * 5000, "1e-400", ".5", "5.", ".", "0x10", "+7", "1__0",
                     "99.99999999999999999", "NaN", "Infinity", "1e", "--1", "\xa042", "\x1c42", "3.5", "4.5"]
 HEARTBEAT_PAYLOADS = ["1111", "0", "-5", "xyz", "5.0", "", " 12 ", "1_000", "١٢", "9" * 4300, "9" * 4301, "+3", "1e3", "0x1", "\x1c1"]
+# Version strings of every kind awesomeversion distinguishes (the Lean model covers every Python str; DESIGN 7, C05):
+# the release grammar, plain integers (BuildVer), prefixes, modifiers (SemVer pre-release / build, PEP 440 pre / post / dev /
+# local / epoch), calendar versions, hexadecimal, the special containers, white space, non-ASCII digits and word characters,
+# 1-6 sections, empty sections, the digit limit of int() in sections the comparison does and does not reach, and the
+# strings on which awesomeversion itself fails with an IndexError (a CalVer string ending in ".\n" once stripped; F16).
+VERSION_CORPUS = [
+    # release grammar and its edges
+    "2.2", "2.1", "2.0", "1.5", "1.4", "2.2.0", "2.3.2", "2.1.1", "2.0.0", "1.5.0", "1.4.9", "0.9", "3.0", "2.10", "1.10.0",
+    "2.2.0.1", "10.0", "0.0", "1.6", "2.2.0.0", "2.2.0.0.0", "2.2.0.0.0.1", "1.2.3.4.5.6", "02.2", "2.02", "2.2.00", "002.002.0",
+    "22.1", "22.01.1", "2022.1.1.1", "2024.6.0", "24.6.0", "2024.12.31", "20.1.2..3", "20.1.2.", "2022.12.31.1", "99.99.99.9",
+    # plain integers, signs, separators
+    "7", "2", "1", "0", "22", "2024", "007", "-2.1", "+2.1", "2.-1", "-7", "+7", "2_0.1", "2_2", "1e1.0", "2,2", "2;2", "2 .2",
+    # prefixes
+    "v2.1", "V2.2", "v7", "vv2.1", "Vv2.2", "v.2.1", "V.2.2", "|2.1", "v|2.1", "|7", "||2.2", "v", "V", "|", "v2.2.0-beta", "v0x10",
+    "vlatest", "vdev", "v2024.6.0",
+    # dots
+    "", ".", "..", "2.", "2..", ".2", ".2.2", "2..1", "2.2.", "2.2..", "2.1.", "2.1..", "7.", "v.", "2.2.0.",
+    # white space (strip, inner, the newline `$` tolerates)
+    " 2.1 ", "\t2.2\n", "2.2 .", "2. 2", "2.2.0 ", " 7", "\x0c2.0", "\x1c2.1", "\xa02.2", " 2.1 ", "2.1\n.", "2.2\n", "2.2\n\n.",
+    "2.2rc1\n.", "latest\n.", "0x10\n.", "7\n.", "2.2.0-rc1\n.", " \n ", "\n.", "2.2.\n", "2\n.2",
+    # the IndexError class (and near misses)
+    "20.1.2.\n.", "2024.12.31.\n.", " v20.1.2.\n. ", "20.1.22.\n.", "20.12.2.\n.", "2024.1.2.\n.", "20.1.2.\r.", "20.1.2.\t.",
+    "20.1.2. .", "20.1.2.\n..", "2.1.2.\n.", "20.1.2\n.", "20.1.\n.", "20.1.2.3\n.", "20.1.2.\n", "V20.1.2.\n.",
+    # non-ASCII digits / word characters / case
+    "٢.١", "２.２", "٢.٢.٠", "2.٢", "१.४", "２", "2.2.0-٢", "2.2.0-rc٢", "20.1.2é3", "20.1é1", "2024.6.0ß1", "20.1²", "20.1Ⅻ1", "2.2Ⅻ",
+    "2.2.0-RC1", "2.2.0-Beta", "2.2RC1", "0X10", "0xAbC", "LATEST", "Dev", "2.2.0+Build",
+    # SemVer modifiers
+    "2.2.0-beta", "2.2.0-alpha", "2.2.0-rc1", "2.2.0-rc.1", "2.2.0-beta.2", "2.2.0-dev.3", "2.2.0-5", "2.2.0-0.3.7", "2.2.0-x.7.z.92",
+    "2.2.0+5", "2.2.0+build.5", "2.2.0-alpha.1+b", "2.2.0-alpha+", "2.2.0-", "2.2.0+", "2.2.0-a+b+c", "2.2.0--", "2.2.0-1-", "2.2.0-01",
+    "2.2.0-0", "2.2.0-1a", "2.2.0-a.b.c", "2.2.0-rc..1", "2.1.0-beta", "2.0.0-rc1", "1.5.0-alpha", "1.4.0-dev", "1.0.0-5", "3.0.0-beta",
+    "2.2.1-beta", "2.3.0-beta", "1.5.0-1a", "02.2.0-beta", "2.02.0-beta", "2.2.00-beta", "10.2.0-beta", "2.2.0-beta-", "2.2.0-b.e.t.a",
+    # PEP 440 and near misses
+    "2.2.0b1", "2.2.0rc1", "2.1.0rc1", "2.0.0.dev1", "2.1.0.dev0+local", "2.2b1", "2.2rc1", "2.2a1", "2.2c1", "2.2pre1", "2.2preview1",
+    "2.2alpha1", "2.2beta1", "2.2.post1", "2.2.dev1", "2.2-r1", "2.2_rev2", "2.2.0.post1.dev2", "1!2.2", "1!2.2.post1.dev3", "2!1.4",
+    "2.2+abc", "2.2+abc.def-1", "2.2+", "2.2b", "2.2.1rc", "1.5.dev", "2.1.rc1", "2.1.rc.1", "2.0_rc1", "2.0-beta", "2.2a", "2.2.x",
+    "2.2.0b01", "2.2.0.b1", "2.2.0-b1", "2.2.0_b1", "2b1", "7rc2", "7.dev3", "7+local", "1!7", "0!2.2", "01!2.2", "2.2d1", "2.2dev1",
+    "2.2.0.dev", "2.2.0dev0", "1.5.1a", "1.5.1-a", "1.5-1a", "1.5a1.post2.dev3+x.y", "2.2post1", "2.2r1", "2.2b1r2d3",
+    # containers and words
+    "latest", "stable", "beta", "dev", "latest.", "latest.1", "dev1", "beta1", "alpha", "rc", "garbage", "a.b", "x", "none", "1.4-stable",
+    # hexadecimal
+    "0x10", "0x1", "0x0", "0xff", "0xFF", "0x", "0xZZ", "0x1.2", "0x10.", "00x10", "0x1g", "x10", "0x" + "f" * 40,
+    # the digit limit of int(): reached, not reached, exactly at the limit
+    "9" * 4300, "9" * 4301, "9" * 5000 + ".1", "3." + "1" * 5000, "2." + "1" * 5000, "2." + "1" * 4300, "2.2." + "1" * 5000,
+    "2.2." + "1" * 4300, "2.3." + "1" * 5000, "2.1." + "1" * 5000, "1.5." + "1" * 5000, "1.4.0." + "1" * 5000, "0." + "1" * 5000,
+    "2.2.0rc" + "1" * 4301, "2.2.0rc" + "1" * 4300, "2.2.0-rc." + "1" * 4301, "2.2.0-" + "1" * 4301, "2.2.0+" + "1" * 4301,
+    "2.2.0.0.0.0." + "1" * 4301, "v" + "1" * 4301 + ".0", "0x" + "1" * 5000, "10.2." + "1" * 5000, " " * 300 + "2.1" + " " * 300,
+]
+
+# What the gateway-level generators of every property draw version payloads from.
 VERSION_PAYLOADS = ["2.2", "2.1", "2.0", "1.5", "1.4", "2.2.0", "2.3.2", "2.1.1", "2.0.0", "1.5.0", "1.4.9", "0.9", "3.0", "2.10",
                     "1.10.0", "2.2.0.1", "10.0", "0.0", "1.6",
-                    "garbage", "", "2.0-beta", "9" * 5000 + ".1", "2..1", "-2.1", "+2.1", "2.-1", "2_0.1", "1e1.0", "2.2a"]
+                    "garbage", "", "2.0-beta", "9" * 5000 + ".1", "2..1", "-2.1", "+2.1", "2.-1", "2_0.1", "1e1.0", "2.2a",
+                    # outside the release grammar (accepted or rejected by awesomeversion; the model covers every string)
+                    "7", "2", "1", "v2.1", "V2.2", "|2.1", " 2.0", "2.1.", "2.2.0-beta", "2.1.0-rc.1", "2.0.0+build", "2.2.0b1",
+                    "2.1.0rc1", "2.0.0.dev1", "2.1.0.dev0+local", "1!2.2", "2024.6.0", "22.1", "latest", "stable", "beta", "dev",
+                    "0x10", "0x1", "٢.١", "２.２.０", "2.2.0.0.0.1", "2.1\n.", "2.2rc1\n.", "20.1.2.\n.", "2024.12.31.\n.", "20.1.2.\t.",
+                    "3." + "1" * 5000, "2." + "1" * 5000, "2.2.0rc" + "1" * 4301, "2.2.0-5", "1.5.0-1a", "v", "."]
+
+_VER_ALPHABET = "0123456789.-+_vabrcdex"
+_VER_SEEDS = ["2.2", "2.1.0", "1.4", "1.5.0", "2.2.0-beta", "2.2.0-rc.1", "2.1.0rc1", "2.0.0.dev1", "2.1.0.dev0+local", "2024.6.0",
+              "24.6.0", "22.01.1b3", "20.1.2.", "0x10", "latest", "dev", "beta", "stable", "7", "v2.1", "1!2.2.post1.dev3",
+              "2.2.0+build.5", "2.2.0-alpha.1+b", "1.5.0a1", "2.0_rc1", "2.2.0.0.1", "1.4.9", "2.2-1", "2.2.0-1-", "2022.12.31.1",
+              "20.1.2.\n", "2.2b", "2.2.1rc", "1.5.dev", "2.1.rc1", "2.1.rc.1", "2.2.0-dev.3"]
+_VER_EXOTIC = list(" \n\t!Vv|٢０é²Ⅻ\x1c\xa0ABZz")
+
+
+def rand_version_string(rng) -> str:
+    """A random version-like string: plain random over the alphabet 0-9 . - + _ v a b r c d e x, a mutation of a valid
+    string of some strategy, or sections with a prefix and a suffix."""
+    r = rng.random()
+    if r < 0.35:
+        al = _VER_ALPHABET if rng.random() < 0.7 else _VER_ALPHABET + "0123456789...."
+        return "".join(rng.choice(al) for _ in range(rng.randint(0, 10)))
+    if r < 0.75:
+        s = rng.choice(_VER_SEEDS)
+        for _ in range(rng.randint(1, 3)):
+            al = list(_VER_ALPHABET) + list("0123.") * 3
+            if rng.random() < 0.2:
+                al = al + _VER_EXOTIC
+            k, i = rng.random(), rng.randint(0, len(s))
+            if k < 0.4:
+                s = s[:i] + rng.choice(al) + s[i:]
+            elif k < 0.7:
+                s = s[:i] + s[i + 1:]
+            else:
+                s = s[:i] + rng.choice(al) + s[i + 1:]
+        if rng.random() < 0.1:
+            s += rng.choice(["\n.", ".", " ", "\n", ".\n."])
+        return s
+    parts = [str(rng.choice([0, 1, 2, 3, 4, 5, 9, 10, 14, 20, 22, 2024, 100])) for _ in range(rng.randint(1, 6))]
+    s = rng.choice(["", "", "", "v", "V", "|", "vv", "v.", " "]) + ".".join(parts)
+    return s + rng.choice(["", "", "", "-beta", "b1", "rc1", ".dev0", "-rc.1", "+build", "a", ".", "..", "\n.", ".\n.", "-5", "_1",
+                           ".post1", "-alpha.2", "dev", " ", "\t", "+a.b", "-", "x"])
 
 
 def pick_type(rng, version, kind):
